@@ -75,13 +75,67 @@ def mutate(rng, msg: bytes) -> tuple[bytes, str]:
     return bytes(b), kind
 
 
+def structured_junk(rng) -> tuple[bytes, str]:
+    """Well-formed COSEM that is not a documented list, and genuine frames with an unusual LLC header."""
+    kind = rng.choice(("kaifa_odd_length", "kaifa_odd_length_frame", "llc_variant", "kamstrup_unknown_obis", "apdu_null_datetime", "datetime_ff"))
+    if kind.startswith("kaifa_odd_length"):
+        n = rng.choice((2, 3, 4, 5, 6, 7, 8, 10, 11, 12, 15, 16, 17, 19, 20, rng.randint(2, 40)))
+        vals = []
+        for _ in range(n):
+            r = rng.random()
+            if r < 0.3:
+                vals.append(ce.octet_string(bytes(rng.randrange(0x20, 0x7F) for _ in range(rng.choice((0, 7, 8, 16))))))
+            else:
+                vals.append(ce.u32(rng.randrange(2**32)))
+        body = ce.kaifa_value_body(vals)
+        if kind.endswith("frame"):
+            dt12, _ = dlms_gen.gen_datetime(rng)
+            return ce.apdu(body, dt12, rng.random() < 0.5), kind
+        return body, kind
+    if kind == "llc_variant":
+        gen = rng.choice((dlms_gen.aidon_case, dlms_gen.kaifa_case, dlms_gen.kamstrup_case))
+        fr = bytearray(gen(rng).frame)
+        i = rng.randrange(3)
+        fr[i] = rng.choice((0x00, 0xE6, 0xE7, 0x03, 0xFF, rng.randrange(256)))
+        return bytes(fr), kind
+    if kind == "kamstrup_unknown_obis":
+        c = dlms_gen.kamstrup_case(rng)
+        b = bytearray(c.body if rng.random() < 0.5 else c.frame)
+        idx = [i for i in range(len(b) - 8) if b[i] == 0x09 and b[i + 1] == 0x06 and b[i + 7] == 0xFF]
+        if idx:
+            i = rng.choice(idx)
+            b[i + 4] = rng.choice((0x63, 0x09, 0x0D, rng.randrange(256)))
+        return bytes(b), kind
+    if kind == "apdu_null_datetime":
+        gen = rng.choice((dlms_gen.kaifa_case, dlms_gen.kamstrup_case))
+        c = gen(rng)
+        return ce.apdu(c.body, None), kind
+    gen = rng.choice((dlms_gen.aidon_case, dlms_gen.kaifa_case, dlms_gen.kamstrup_case))
+    c = gen(rng)
+    b = bytearray(c.frame)
+    idx = [i for i in range(len(b) - 13) if b[i] == 0x0C and b[i + 1] in (0x07, 0x00, 0x08, 0x27)]
+    if idx:
+        i = rng.choice(idx)
+        for k in rng.sample(range(1, 13), rng.randint(1, 6)):
+            b[i + k] = 0xFF
+    return bytes(b), kind
+
+
 ASCII_FRAG = "0123456789.:-()*\r\n kWhA"
+NUMERIC_EXTREMES = ("9e9123", "1e308", "1e309", "inf", "-inf", "nan", "infinity", "1e-400", "-0", "1_000", "0x10", "١٢٣", "1e5", "+5", ".5", "5.", "1" + "0" * 400)
 
 
 def ascii_fragment(rng) -> bytes:
     r = rng.random()
-    if r < 0.25:
+    if r < 0.2:
+        v = rng.choice(NUMERIC_EXTREMES)
+        unit = rng.choice(("kW", "kWh", "kvar", "kvarh", "V", "A", "var", "varh", "KW"))
+        try:
+            return f"1-0:{rng.choice(('1.7.0', '1.8.0', '32.7.0', '9.9.9'))}({v}*{unit})\r\n".encode("ascii"), "ascii"
+        except UnicodeEncodeError:
+            return f"1-0:1.7.0({v}*{unit})\r\n".encode("utf-8"), "ascii"
+    if r < 0.4:
         base = rng.choice(("1-0:1.8.0(123", "1-0:1.8.0(123)xyz", "1-0:1.8.0(1*kWh)(", "(1)(2", "1.8.0(1))", "1.8.0((1)", ")(", "1.8.0(1)\r\n2.8.0(2", "(", "1.8.0()", "a(b)c(d)e"))
-        return base.encode()
+        return base.encode(), "ascii"
     n = rng.choice((1, 2, 5, 12, 40, 200))
-    return "".join(rng.choice(ASCII_FRAG) for _ in range(n)).encode()
+    return "".join(rng.choice(ASCII_FRAG) for _ in range(n)).encode(), "ascii"
